@@ -32,7 +32,7 @@ from common import enc, dec, enc_list, dec_list
 META = ("DECLARER", "DECLARED", "MODIFIER", "MODIFIED")
 ERRMAP = {"RuntimeError": "BadTable", "KeyError": "Crash", "TypeError": "Crash", "AttributeError": "Crash",
           "UnboundLocalError": "Crash", "UnderSpecifiedProduct": "Refused", "TableFileNotFound": "Undefined",
-          "IndexError": "Crash"}
+          "IndexError": "Crash", "ProductNotFound": "NotFound", "RecursionError": "Crash"}
 
 
 # ------------------------------------------------------------------ encoding helpers
@@ -964,9 +964,11 @@ def gen_tags(rng):
             ops.append({"op": "declare", "flavor": fl, "version": ver, "tag": rng.random() < 0.6,
                         "dir": rng.choice(["in", "in", "none"])})
             declared.add((fl, ver))
-        elif r < 0.72:
+        elif r < 0.62:
             fl, ver = rng.choice(sorted(declared))
             ops.append({"op": "assign", "flavor": fl, "version": ver})
+        elif r < 0.72:
+            ops.append(gen_assignmany(rng, fls, vers, declared))
         elif r < 0.87:
             ops.append({"op": "unassign", "flavor": fl})
         else:
@@ -975,6 +977,70 @@ def gen_tags(rng):
             declared.discard((fl, ver))
     return {"kind": "tags", "stack": rng.choice(STACKNAMES), "name": name, "flavors": fls, "versions": vers,
             "ops": ops, "moved": rng.choice(["moved", "new place"]), "shape": "tags"}
+
+
+def gen_assignmany(rng, fls, vers, declared):
+    """Database.assignTag for a LIST of flavors (any order, a repetition, a flavor that is not declared), for the
+    empty list or for flavors=None (both: every declared flavor of the version)"""
+    ver = rng.choice(sorted(declared))[1] if declared and rng.random() < 0.9 else rng.choice(vers)
+    r = rng.random()
+    if r < 0.3:
+        req = None
+    elif r < 0.35:
+        req = []
+    else:
+        req = rng.sample(fls, rng.randrange(1, len(fls) + 1))
+        if rng.random() < 0.15:
+            req.insert(rng.randrange(len(req) + 1), rng.choice(req))
+        if rng.random() < 0.1:
+            req.insert(rng.randrange(len(req) + 1), "sparc")
+    return {"op": "assignmany", "flavor": None, "version": ver, "flavors": req}
+
+
+def gen_tags_many(rng):
+    """directed: every flavor has the version declared; some flavors carry the tag already (for this version, or for
+    the other one), some do not; the tag is then assigned for a list of flavors / for all of them in one call"""
+    name = rng.choice(NAMES)
+    fls = rng.sample(FLAVORS, rng.choice([2, 3, 3]))
+    vers = rng.sample(["1.0", "2.0", "svn 7", "v1_2"], 2)
+    ops, declared = [], set()
+    state = {}
+    for fl in fls:
+        how = rng.choice(["same", "same", "other", "untagged", "untagged"])
+        state[fl] = how
+    if "same" not in state.values() or rng.random() < 0.1:
+        state[rng.choice(fls)] = "same"
+    order = list(fls)
+    rng.shuffle(order)
+    for fl in order:
+        ops.append({"op": "declare", "flavor": fl, "version": vers[0], "tag": state[fl] == "same" and rng.random() < 0.5,
+                    "dir": rng.choice(["in", "in", "none"])})
+        declared.add((fl, vers[0]))
+        if state[fl] == "same" and not ops[-1]["tag"]:
+            ops.append({"op": "assign", "flavor": fl, "version": vers[0]})
+        if state[fl] == "other":
+            ops.append({"op": "declare", "flavor": fl, "version": vers[1], "tag": True, "dir": "in"})
+            declared.add((fl, vers[1]))
+    r = rng.random()
+    if r < 0.35:
+        req = None
+    else:
+        req = list(fls)
+        rng.shuffle(req)
+        if rng.random() < 0.3 and len(req) > 2:
+            req.pop()
+    ops.append({"op": "assignmany", "flavor": None, "version": vers[0], "flavors": req})
+    for _ in range(rng.choice([0, 1, 2])):
+        r = rng.random()
+        if r < 0.5:
+            ops.append(gen_assignmany(rng, fls, vers, declared))
+        elif r < 0.75:
+            ops.append({"op": "unassign", "flavor": rng.choice(fls)})
+        else:
+            fl, ver = rng.choice(sorted(declared))
+            ops.append({"op": "assign", "flavor": fl, "version": ver})
+    return {"kind": "tags", "stack": rng.choice(STACKNAMES), "name": name, "flavors": fls, "versions": vers,
+            "ops": ops, "moved": rng.choice(["moved", "new place"]), "shape": "tags-many"}
 
 
 def impl_tags(cases, scratch):
@@ -1034,6 +1100,11 @@ def impl_tags(cases, scratch):
                                       ups_dir=ups_dir))
                 elif op["op"] == "assign":
                     D.assignTag("current", name, op["version"], op["flavor"])
+                elif op["op"] == "assignmany":
+                    if op["flavors"] is None:
+                        D.assignTag("current", name, op["version"])
+                    else:
+                        D.assignTag("current", name, op["version"], list(op["flavors"]))
                 elif op["op"] == "unassign":
                     D.unassignTag("current", name, op["flavor"])
                 else:
@@ -1063,7 +1134,7 @@ def run_tags(ctx, cases, scratch):
     if r[0] != "ok":
         raise RuntimeError("tags implementation driver failed: %r" % (r,))
     for c, i in zip(cases, r[1]):
-        ctx.count(1, key="tags/%dfl/%dops" % (len(c["flavors"]), len(c["ops"])),
+        ctx.count(1, key="%s/%dfl/%dops" % (c.get("shape", "tags"), len(c["flavors"]), min(len(c["ops"]), 9)),
                   nontrivial=("tags", c["name"], tuple(c["flavors"]), json.dumps(c["ops"])))
         small = {k: c[k] for k in ("kind", "stack", "name", "flavors", "versions", "ops", "moved", "shape")}
         # ---- the model, on its own texts
@@ -1071,11 +1142,25 @@ def run_tags(ctx, cases, scratch):
         mcf = None
         # ---- the property's oracle: an abstract database
         tagged, prev = {}, {"vf": {v: None for v in c["versions"]}, "chain": None}
+        odecl = set()           # the oracle's own account of what is declared: (flavor, version)
         ok = True
         for k, (op, st) in enumerate(zip(c["ops"], i["steps"])):
             ctx.bump("tags-op/" + op["op"])
             fl = op["flavor"]
-            if "err" in st:
+            aff, aff_vf, expect_err = [fl], [fl], False
+            if op["op"] == "assignmany":
+                # the flavors the call names (None, the empty list: all) that are declared for the version
+                req = op["flavors"]
+                aff = [g for g in c["flavors"] if (g, op["version"]) in odecl and (not req or g in req)]
+                aff_vf, expect_err = [], not aff
+                fl = "all" if not req else "[%s]" % ", ".join(req)
+                have = [g for g in aff if tagged.get(g) == op["version"]]
+                ctx.bump("tags-many/%s/%s" % (
+                    "none" if req is None else "empty" if not req else "list",
+                    "no-such-flavor" if not aff else "one-flavor" if len(aff) == 1 else
+                    "none-tagged-yet" if not have else "all-tagged-already" if len(have) == len(aff) else
+                    "some-tagged-already"))
+            if "err" in st and not (expect_err and st["err"] == "NotFound"):
                 ctx.fail("tags-op-raises", small, expected=None, observed=st["err"],
                          what="step %d (%s %s) raised %s" % (k, op["op"], fl, st["err"]))
                 break
@@ -1093,6 +1178,12 @@ def run_tags(ctx, cases, scratch):
                 elif op["op"] == "assign":
                     qs.append(("cf", None, "\t".join(["cfassign", enc(c["name"]), enc("current"), enc(op["version"]),
                                                       enc(fl), enc_lines(mcf)])))
+                elif op["op"] == "assignmany":
+                    ver = op["version"]
+                    qs.append(("cf", None, "\t".join(["dbassign", enc(c["name"]), enc("current"), enc(ver),
+                                                      "~" if op["flavors"] is None else
+                                                      ",".join(enc(x) for x in op["flavors"]),
+                                                      enc_lines(mvf[ver]), enc_lines(mcf)])))
                 elif op["op"] == "unassign":
                     if mcf is not None:
                         qs.append(("cf", None, "\t".join(["cfremove", enc_lines(mcf), enc(fl)])))
@@ -1111,6 +1202,8 @@ def run_tags(ctx, cases, scratch):
                 for (what, ver, q), line in zip(qs, ctx.model([q for _, _, q in qs])):
                     f = line.split("\t")
                     ctx.traces_validated += 1
+                    if f[0] == "err" and "err" in st and f[1:2] == [st["err"]]:
+                        continue            # both refuse; nothing is written
                     new = dec_lines(f[1] if len(f) > 1 else "") if f[0] == "ok" else None
                     if new == []:
                         new = None          # the file is removed
@@ -1118,8 +1211,8 @@ def run_tags(ctx, cases, scratch):
                         mvf[ver] = new
                     else:
                         mcf = new
-                    if f[0] != "ok":
-                        ctx.disagree({"case": small, "step": k}, f, "no error", where="tags-model")
+                    if f[0] != "ok" or "err" in st:
+                        ctx.disagree({"case": small, "step": k}, f, st.get("err", "no error"), where="tags-model")
                         ok = False
                 if ok:
                     mine = {"vf": {v: (drop_meta(x) if x is not None else None) for v, x in mvf.items()},
@@ -1130,32 +1223,39 @@ def run_tags(ctx, cases, scratch):
                         ctx.disagree({"case": small, "step": k}, mine, theirs, where="tags-texts")
                         ok = False
             # oracle: the abstract database
+            if op["op"] == "declare":
+                odecl.add((fl, op["version"]))
+            elif op["op"] == "undeclare":
+                odecl.discard((fl, op["version"]))
             if op["op"] == "declare" and op["tag"]:
                 tagged[fl] = op["version"]
             elif op["op"] == "assign":
                 tagged[fl] = op["version"]
+            elif op["op"] == "assignmany":
+                for g in aff:
+                    tagged[g] = op["version"]
             elif op["op"] == "unassign":
                 tagged.pop(fl, None)
             elif op["op"] == "undeclare" and tagged.get(fl) == op["version"]:
                 tagged.pop(fl)
             for g in c["flavors"]:
                 if after["tagged"].get(g) != tagged.get(g):
-                    ctx.fail("tagged-version" if g == fl else "chain-rewrite-changes-other-flavor", small,
+                    ctx.fail("tagged-version" if g in aff else "chain-rewrite-changes-other-flavor", small,
                              expected=tagged.get(g), observed=after["tagged"].get(g),
                              what="after step %d (%s %s%s) flavor %s has current = %r, the operations so far give %r"
-                                  % (k, op["op"], fl, " " + op.get("version", ""), g, after["tagged"].get(g),
+                                  % (k, op["op"], fl, " " + (op.get("version") or ""), g, after["tagged"].get(g),
                                      tagged.get(g)))
             # oracle: blocks of the other flavors are unchanged
             for ver in c["versions"]:
                 was, now_ = parsed_blocks(prev["vf"][ver]), parsed_blocks(after["vf"][ver])
                 for g in c["flavors"]:
-                    if g != fl and was.get(g) != now_.get(g):
+                    if g not in aff_vf and was.get(g) != now_.get(g):
                         ctx.fail("rewrite-changes-other-flavor", small, expected=was.get(g), observed=now_.get(g),
                                  what="step %d (%s %s) changed the block of flavor %s in %s.version"
                                       % (k, op["op"], fl, g, ver))
             was, now_ = parsed_blocks(prev["chain"]), parsed_blocks(after["chain"])
             for g in c["flavors"]:
-                if g != fl and was.get(g) != now_.get(g):
+                if g not in aff and was.get(g) != now_.get(g):
                     ctx.fail("chain-rewrite-changes-other-flavor", small, expected=was.get(g), observed=now_.get(g),
                              what="step %d (%s %s) changed the chain entry of flavor %s" % (k, op["op"], fl, g))
             prev = after
@@ -1196,6 +1296,13 @@ def run_cases(ctx, cases):
         tg = [c for c in cases if c["kind"] == "tags"]
         for k in range(0, len(tg), 200):
             run_tags(ctx, tg[k:k + 200], scratch)
+        import c16x
+        ca = [c for c in cases if c["kind"] == "chainapi"]
+        for k in range(0, len(ca), 500):
+            c16x.run_chainapi(ctx, ca[k:k + 500], scratch)
+        mc = [c for c in cases if c["kind"] == "macro"]
+        for k in range(0, len(mc), 200):
+            c16x.run_macro(ctx, mc[k:k + 200], scratch)
     finally:
         shutil.rmtree(scratch, ignore_errors=True)
 
@@ -1216,7 +1323,16 @@ def setup(ctx):
                 "each declaration is made from a working directory that is empty / the product directory / its ups "
                 "directory / the stack / the directory of the table file / outside; tags: two versions x 2-3 flavors of one product, 4-8 "
                 "operations (Database.declare with or without a tag, assignTag, unassignTag, undeclare) on one flavor "
-                "at a time while the others already have version blocks and chain entries, stack renamed; non-trivial = at least one block (codec), every paths "
+                "at a time while the others already have version blocks and chain entries, and Database.assignTag for a LIST of flavors (any order, a repetition, an undeclared flavor), the empty list or flavors=None while some of the flavors carry the tag already (for that version or another) and others do not (directed family tags-many), stack renamed; "
+                "chainapi: one chain file over 2-6 sessions of ChainFile(file) ; setVersion / removeVersion with a list of "
+                "flavors, a string or None ; write ; read back by a fresh ChainFile (directed: the list holds flavors that "
+                "already have the version first or later in the list); macro: hand-written and VersionFile-API records of "
+                "1-2 products x 2-3 flavors whose blocks use the FLAVOR / PROD_ROOT / UPS_DB / UPS_DIR / PROD_DIR macros, "
+                "80% with ONE block text for every flavor, directory relative / below PROD_ROOT / deeper / flavor last / "
+                "outside / none x table in ups / interned / elsewhere in the stack / via UPS_DIR / via PROD_DIR / none, "
+                "3-8 Database.findProduct look-ups of several flavors and products in ONE process in a generated order "
+                "with repetitions, stack renamed, asked again in another order by the same process; "
+                "non-trivial = at least one block (codec), every paths "
                 "case, every stack case; distinct = distinct input")
     ctx.trusted_base = common.COMMON_TRUSTED + [
         "modelled, not verified: python re on ASCII text for the five reader patterns and the five macro patterns, "
@@ -1250,6 +1366,13 @@ def run(ctx):
         cases.append(gen_stack(rng))
     for _ in range(ctx.size(150, 4000)):
         cases.append(gen_tags(rng))
+    import c16x
+    for _ in range(ctx.size(100, 3000)):
+        cases.append(gen_tags_many(rng))
+    for _ in range(ctx.size(400, 10000)):
+        cases.append(c16x.gen_chainapi(rng))
+    for _ in range(ctx.size(160, 6000)):
+        cases.append(c16x.gen_macro(rng))
     for c in [x for x in cases if x["kind"] == "stack"][:2] + [x for x in cases if x["kind"] == "vftext"][:1]:
         ctx.sample(c)
     run_cases(ctx, cases)
